@@ -127,12 +127,12 @@ class CircuitPlan:
         self.spots.append((self.exit, ids[-1], n[-2], "exit"))
 
 
-def make_plan(k: int) -> tuple[list[CircuitPlan], dict[str, set]]:
+def make_plan(k: int, indices: list[int] | None = None) -> tuple[list[CircuitPlan], dict[str, set]]:
     """Greedy id assignment: every link gets the smallest id not yet in use at either end (maximal reuse)."""
     used: dict[str, set] = {n: set() for n in ROLES}
     plans = []
-    for idx in range(k):
-        origin, path = CIRCUITS[idx]
+    for idx, which in enumerate(indices if indices is not None else range(k)):
+        origin, path = CIRCUITS[which]
         nodes = [origin, *path]
         ids = []
         for u, v in zip(nodes, nodes[1:]):
@@ -168,14 +168,19 @@ class HarnessError(Exception):
 
 
 class World5:
-    def __init__(self, k: int, seed: int) -> None:
+    def __init__(self, k: int, seed: int, indices: list[int] | None = None, remove_delay: float = 0,
+                 hold_last: bool = False) -> None:
+        """
+        indices: which of CIRCUITS to use (default the first k); hold_last: the last one is planned but not built
+        (see start_last/finish_last); remove_delay: settings.remove_tunnel_delay for every node.
+        """
         self.k = k
         self.seed = seed
-        self.plans, self.used = make_plan(k)
+        self.plans, self.used = make_plan(k, indices)
         ID_PROXY.queue = []
         ID_PROXY.fallbacks = 0
-        self.w = TunnelWorld(("c05", seed, k), ROLES, community_cls=C05Community, key_offset=seed % 5,
-                             remove_tunnel_delay=0)
+        self.w = TunnelWorld(("c05", seed, k, indices), ROLES, community_cls=C05Community, key_offset=seed % 5,
+                             remove_tunnel_delay=remove_delay)
         w = self.w
         self.addr = {n: node.address for n, node in w.nodes.items()}     # UDPv4Address, as a real endpoint reports
         self.prefix = w.ov["ADV"].get_prefix()
@@ -194,51 +199,116 @@ class World5:
         self.snap: dict[tuple, tuple] = {}
         self.extras: set = set()       # entries adopted after a reported violation (so that it is reported once)
         self.setup_violations: list[tuple] = []
-        for p in self.plans:
+        built = self.plans[:-1] if hold_last else self.plans
+        self._saved_candidates: dict | None = None
+        if hold_last:
+            self.live[-1] = False
+        for p in built:
             self.circ_obj.append(self._build(p))
         self._take_snapshot()
-        missing = [e for p in self.plans for e in p.entries if e not in self.snap]
-        surplus = [e for e in self.snap if not any(e in p.entries for p in self.plans)]
+        missing = [e for p in built for e in p.entries if e not in self.snap]
+        surplus = [e for e in self.snap if not any(e in p.entries for p in built)]
         if missing or surplus or ID_PROXY.fallbacks or any(c.state != CIRCUIT_STATE_READY for c in self.circ_obj):
             raise HarnessError(f"setup did not produce the planned tables: missing={missing} surplus={surplus} "
                                f"fallbacks={ID_PROXY.fallbacks} tables={w.tables()}")
         # one packet out and one reply on every circuit: opens every exit socket, records cells on every link
-        for p in self.plans:
+        for p in built:
             self.setup_violations += self._send(p.index, "setup")
             sock = w.ov[p.exit].exit_sockets.get(p.ids[-1])
             self.exit_tr[p.index] = sock.transport_ipv4 if sock is not None else None
-        self.broken = any(tr is None for tr in self.exit_tr)     # no packet left: nothing to explore from here
+        self.broken = any(self.exit_tr[p.index] is None for p in built)     # no packet left: nothing to explore
         if not self.broken:
-            for p in self.plans:
+            for p in built:
                 self.setup_violations += self._reply(p.index, "setup")
         self.trace.append(self.digest())
 
     # -- construction ---------------------------------------------------------------------------------------------
-    def _build(self, p: CircuitPlan) -> Circuit:
+    def _start(self, p: CircuitPlan) -> Circuit:
+        """Force the path and send the first create (nothing delivered yet); candidates stay restricted."""
         w = self.w
-        saved = {n: dict(o.candidates) for n, o in w.ov.items()}
-        try:
-            for i in range(len(p.path) - 2):
-                w.restrict(p.path[i], [p.path[i + 1]])
-            ov = w.ov[p.origin]
-            ID_PROXY.queue = list(p.ids)
+        self._saved_candidates = {n: dict(o.candidates) for n, o in w.ov.items()}
+        for i in range(len(p.path) - 2):
+            w.restrict(p.path[i], [p.path[i + 1]])
+        ov = w.ov[p.origin]
+        ID_PROXY.queue = list(p.ids)
 
-            def start() -> Circuit:
-                cid = ov._generate_circuit_id()
-                circuit = Circuit(cid, len(p.path), CIRCUIT_TYPE_DATA, w.peer_of(p.origin, p.exit), None)
-                ov.circuits[cid] = circuit
-                ov.send_initial_create(circuit, [w.peer_of(p.origin, p.path[0])],
-                                       ov.settings.circuit_timeout // ov.settings.next_hop_timeout)
-                return circuit
-            c = w.nodes[p.origin].run(start)
-            w.flush()
+        def start() -> Circuit:
+            cid = ov._generate_circuit_id()
+            circuit = Circuit(cid, len(p.path), CIRCUIT_TYPE_DATA, w.peer_of(p.origin, p.exit), None)
+            ov.circuits[cid] = circuit
+            ov.send_initial_create(circuit, [w.peer_of(p.origin, p.path[0])],
+                                   ov.settings.circuit_timeout // ov.settings.next_hop_timeout)
+            return circuit
+        return w.nodes[p.origin].run(start)
+
+    def _restore_candidates(self) -> None:
+        if self._saved_candidates is not None:
+            for n, o in self.w.ov.items():
+                o.candidates.clear()
+                o.candidates.update(self._saved_candidates[n])
+            self._saved_candidates = None
+
+    def _build(self, p: CircuitPlan) -> Circuit:
+        try:
+            c = self._start(p)
+            self.w.flush()
             if ID_PROXY.queue:
                 raise HarnessError(f"circuit {p.index}: planned ids not consumed: {ID_PROXY.queue}")
             return c
         finally:
-            for n, o in w.ov.items():
-                o.candidates.clear()
-                o.candidates.update(saved[n])
+            self._restore_candidates()
+
+    def table_view(self) -> dict:
+        """(node, table, id) -> identity tuple of everything currently routed anywhere."""
+        return {(n, t, key): self._ident(obj) for n, t, table in self._tables() for key, obj in table.items()}
+
+    @staticmethod
+    def table_diff(before: dict, after: dict) -> list[tuple]:
+        out = []
+        for e, now in after.items():
+            ref = before.get(e)
+            if ref is None:
+                out.append((f"table-added:{e[1]}", f"{e[0]}.{e[1]}[{e[2]}] appeared"))
+            elif any(a is not b for a, b in zip(now[:4], ref[:4])) or now[4] != ref[4]:
+                out.append((f"entry-replaced:{e[1]}", f"{e[0]}.{e[1]}[{e[2]}] was replaced"))
+        for e in before:
+            if e not in after:
+                out.append((f"entry-removed:{e[1]}", f"{e[0]}.{e[1]}[{e[2]}] vanished"))
+        return out
+
+    def holds(self, node: str, cid: int) -> bool:
+        ov = self.w.ov[node]
+        return cid in ov.circuits or cid in ov.relay_from_to or cid in ov.exit_sockets
+
+    def forged_create(self, node: str, cid: int, neigh: str, variant: str) -> None:
+        """ADV asks `node` to open a circuit under cid (own key, or the neighbour's key and address); flushes."""
+        adv = self.w.ov["ADV"]
+        _, dh = adv.crypto.generate_diffie_secret()
+        who = "ADV" if variant == "adversary-key" else neigh
+        key = self.w.nodes[who].my_peer.public_key.key_to_bin()
+        self.w.inject(self.addr[who], self.addr[node], self._cell(cid, self._msg(CreatePayload(cid, 7, key, dh)), True))
+        self.w.flush()
+        self.injections += 1
+
+    def adopt_last(self, c: Circuit) -> list[tuple]:
+        """The held circuit finished building: make it an ordinary live circuit of the reference."""
+        p = self.plans[-1]
+        self._restore_candidates()
+        self.circ_obj.append(c)
+        self._take_snapshot()
+        self.extras = set()
+        out = [("build-incomplete", f"{e[0]}.{e[1]}[{e[2]}] of the new circuit is missing") for e in p.entries
+               if e not in self.snap]
+        for e, ident in self.snap.items():
+            owner = [q for q in self.plans if e in q.entries]
+            if not owner:
+                out.append((f"table-added:{e[1]}", f"{e[0]}.{e[1]}[{e[2]}] exists but no circuit was planned there "
+                                                   f"(hop peer {self._who(ident[2])})"))
+            elif self._who(ident[2]) != owner[0].entries[e]:
+                out.append((f"entry-replaced:{e[1]}", f"{e[0]}.{e[1]}[{e[2]}] has hop peer {self._who(ident[2])}, "
+                                                      f"planned {owner[0].entries[e]}"))
+        self.live[-1] = not out
+        return out
 
     def _tables(self):  # noqa: ANN202
         for n, ov in self.w.ov.items():
@@ -866,6 +936,170 @@ def explore(k: int, seed: int, depth: int, jobs: int) -> tuple[Acc, int]:
 
 
 # ---------------------------------------------------------------------------------------------------------------------
+# second family: create(id in use) against circuits that are not READY (under construction / closing)
+# ---------------------------------------------------------------------------------------------------------------------
+
+VARIANTS = ["adversary-key", "neighbour-key-and-address-spoofed"]
+HANDSHAKE = {1: 2, 2: 6, 3: 12}            # datagrams of a complete h-hop build
+HB_BASES = [[], [1, 2]]                    # READY circuits already present (indices into CIRCUITS)
+HB_NEW = [5, 0, 4]                         # the circuit under construction: 1, 2 and 3 hops
+CL_WORLDS = [([0, 1, 2], 0), ([0, 4], 1), ([0, 5], 1)]     # (circuits, position of the one being closed)
+
+
+def family_cases() -> list[tuple]:
+    cases: list[tuple] = []
+    for base in HB_BASES:
+        for new in HB_NEW:
+            h = len(CIRCUITS[new][1])
+            for j in range(HANDSHAKE[h]):
+                for t in range(2 * h):
+                    for v in range(len(VARIANTS)):
+                        cases.append(("halfbuilt", tuple(base), new, j, t, v))
+    for indices, victim in CL_WORLDS:
+        h = len(CIRCUITS[indices[victim]][1])
+        for init in ("origin-api", "exit-api"):
+            for lapsed in (0, 1):
+                for dt in (0.0, 2.5):
+                    for t in range(2 * h):
+                        for v in range(len(VARIANTS)):
+                            cases.append(("closing", tuple(indices), victim, init, lapsed, dt, t, v))
+    return cases
+
+
+def run_family_case(seed: int, case: tuple) -> tuple[list[tuple], str, bytes, int]:
+    """One execution from scratch. Returns ([(key, what)], status, abstract digest, injections)."""
+    if case[0] == "halfbuilt":
+        return _run_halfbuilt(seed, *case[1:])
+    return _run_closing(seed, *case[1:])
+
+
+def _labelled(found: list[tuple], label: str) -> list[tuple]:
+    return [(f"{o}|{label}", f"[{label}] {d}") for o, d in found]
+
+
+def _traffic(world: World5, label: str) -> list[tuple]:
+    out = []
+    for p in world.plans:
+        if world.live[p.index]:
+            out += [(f"{o}|{l}", f"[{l}] {d}") for o, d, l in world._send(p.index, label)]
+            if world.exit_tr[p.index] is None:
+                sock = world.w.ov[p.exit].exit_sockets.get(p.ids[-1])
+                world.exit_tr[p.index] = sock.transport_ipv4 if sock is not None else None
+            if world.exit_tr[p.index] is not None:
+                out += [(f"{o}|{l}", f"[{l}] {d}") for o, d, l in world._reply(p.index, label)]
+    return out
+
+
+def _run_halfbuilt(seed: int, base: tuple, new: int, j: int, t: int, v: int) -> tuple[list[tuple], str, bytes, int]:
+    indices = [*base, new]
+    world = World5(len(indices), seed, indices, hold_last=True)
+    try:
+        w = world.w
+        viol = [(f"{o}|{l}", f"[{l}] {d}") for o, d, l in world.setup_violations]
+        if world.broken:
+            return viol, "broken", world.digest(), world.injections
+        p = world.plans[-1]
+        c = world._start(p)
+        w.loop.settle()
+        for _ in range(j):
+            if not w.inflight:
+                return viol, "n/a", world.digest(), world.injections
+            w.deliver(0)
+        node, cid, neigh, role = p.spots[t]
+        if not world.holds(node, cid):
+            return viol, "n/a", world.digest(), world.injections      # this node does not route the id (yet)
+        held = list(w.inflight)
+        w.inflight.clear()
+        state = c.state
+        before = world.table_view()
+        world.forged_create(node, cid, neigh, VARIANTS[v])
+        label = f"HB/{role}"
+        where = (f"{VARIANTS[v]} create({cid}) sent to {node} after {j} of {HANDSHAKE[len(p.path)]} handshake datagrams "
+                 f"of {p.origin}->{'->'.join(p.path)} (originator circuit {state})")
+        found = [(o, f"{d}: {where}") for o, d in World5.table_diff(before, world.table_view())]
+        viol += _labelled(found, label)
+        if found:
+            return viol, "violated", world.digest(), world.injections
+        w.inflight[:0] = held
+        w.flush()
+        if c.state != CIRCUIT_STATE_READY or ID_PROXY.queue:
+            viol += _labelled([("build-blocked", f"the honest circuit ended in state {c.state} with "
+                                                 f"{len(c.hops)}/{len(p.path)} hops: {where}")], label)
+            return viol, "violated", world.digest(), world.injections
+        found = [(o, f"{d}: {where}") for o, d in world.adopt_last(c)]
+        viol += _labelled(found, label)
+        if not found:
+            viol += _traffic(world, label)
+        return viol, "ran", world.digest(), world.injections
+    finally:
+        world.close()
+
+
+def _run_closing(seed: int, indices: tuple, victim: int, init: str, lapsed: int, dt: float, t: int,
+                 v: int) -> tuple[list[tuple], str, bytes, int]:
+    world = World5(len(indices), seed, list(indices), remove_delay=5)
+    try:
+        w = world.w
+        viol = [(f"{o}|{l}", f"[{l}] {d}") for o, d, l in world.setup_violations]
+        if world.broken:
+            return viol, "broken", world.digest(), world.injections
+        p = world.plans[victim]
+        if lapsed:
+            viol += _labelled(world._wait(), "CL/wait")
+        viol += _labelled(world._valid_destroy(p, init), "CL/teardown")
+        if dt:
+            w.run_for(dt)
+            viol += _labelled(world.check(), "CL/teardown")
+        node, cid, neigh, role = p.spots[t]
+        if viol or not world.holds(node, cid):
+            return viol, "violated" if viol else "n/a", world.digest(), world.injections
+        state = world.circ_obj[victim].state
+        before = world.table_view()
+        world.forged_create(node, cid, neigh, VARIANTS[v])
+        label = f"CL/{role}"
+        where = (f"{VARIANTS[v]} create({cid}) sent to {node} {dt}s after {init} teardown of "
+                 f"{p.origin}->{'->'.join(p.path)} (originator circuit {state}, remove_tunnel_delay 5, "
+                 f"{'61 s' if lapsed else '0 s'} after the build)")
+        found = [(o, f"{d}: {where}") for o, d in World5.table_diff(before, world.table_view())]
+        viol += _labelled(found, label)
+        if found:
+            return viol, "violated", world.digest(), world.injections
+        w.run_for(6.0)
+        viol += _labelled([(o, f"{d}: {where}") for o, d in world.check()], label)
+        if not viol:
+            viol += _traffic(world, label)
+        return viol, "ran", world.digest(), world.injections
+    finally:
+        world.close()
+
+
+_FAMILY_SEED = 0
+
+
+def _family_work(chunk: list) -> list:
+    return [(case, *run_family_case(_FAMILY_SEED, case)) for case in chunk]
+
+
+def explore_family(seed: int, jobs: int) -> dict:
+    global _FAMILY_SEED
+    _FAMILY_SEED = seed
+    cases = family_cases()
+    res = core.pmap(_family_work, cases, jobs, chunk=4)
+    out = {"cases": len(cases), "status": {}, "states": set(), "injections": 0, "viol": {}, "samples": []}
+    for case, viol, status, dg, inj in sorted(res, key=lambda r: repr(r[0])):
+        key = f"{case[0]}:{status}"
+        out["status"][key] = out["status"].get(key, 0) + 1
+        out["states"].add(dg)
+        out["injections"] += inj
+        for k, what in viol:
+            if k not in out["viol"]:
+                out["viol"][k] = (what, list(case))
+    ran = [list(r[0]) for r in sorted(res, key=lambda r: repr(r[0])) if r[2] == "ran"]
+    out["samples"] = ran[:1] + ran[-1:]
+    return out
+
+
+# ---------------------------------------------------------------------------------------------------------------------
 # harness interface
 # ---------------------------------------------------------------------------------------------------------------------
 
@@ -931,6 +1165,20 @@ def _run(ctx: core.Ctx) -> core.Report:
         for hist in ([acc.varied[3]] if acc.varied else []) + [it[1] for it in (acc.first, acc.last) if it]:
             if {"k": k, "history": hist} not in samples:
                 samples.append({"k": k, "history": hist})
+    fam = explore_family(seed, ctx.jobs)
+    for key, (what, case) in sorted(fam["viol"].items()):
+        rp = {"family": case[0], "seed": seed, "case": case}
+        if key not in [v[0] for v in run_family_case(seed, tuple(_untuple(case)))[0]]:
+            core.eprint(f"C05: violation {key} of case {case} does not reproduce from scratch")
+            sys.exit(2)
+        if key not in violations:
+            violations[key] = core.Violation(key, f"case={case}: {what}", rp)
+    applied = sum(n for k, n in fam["status"].items() if not k.endswith(":n/a"))
+    states |= fam["states"]
+    transitions += applied
+    executions += applied
+    injections += fam["injections"]
+    samples += [{"family": c[0], "case": c} for c in fam["samples"]]
     cov = {
         "states": len(states),
         "transitions": transitions,
@@ -939,6 +1187,14 @@ def _run(ctx: core.Ctx) -> core.Report:
         "exhaustive": True,
         "injections_each_followed_by_oracle": injections,
         "worlds": per_world,
+        "not_ready_family": {"cases_enumerated": fam["cases"], "by_outcome": dict(sorted(fam["status"].items())),
+                             "what": "create(id in use) by the adversary (2 variants) at every node that routes the id, "
+                                     "(a) after j = 0..n-1 delivered handshake datagrams of a 1/2/3-hop build, with 0 "
+                                     "or 2 READY circuits around, then the rest of the handshake is delivered and the "
+                                     "circuit must be READY, planned tables only, traffic on every circuit delivered; "
+                                     "(b) 0 s / 2.5 s after a teardown by originator or exit with remove_tunnel_delay "
+                                     "= 5 (circuit CLOSING), 0 s or 61 s after the build; n/a = that node does not "
+                                     "hold the id at that moment"},
         "bounds": [{"circuits": k, "depth": d} for k, d in bounds(ctx)],
         "state_definition": "digest of (routing-table key sets per node with originator circuit state, live/dying "
                             "flag per circuit, forward/reply delivery counts per circuit, open exit sockets, number "
@@ -960,7 +1216,17 @@ def _run(ctx: core.Ctx) -> core.Report:
     return core.Report(LEVEL, cov, list(violations.values()), assumptions)
 
 
+def _untuple(case: list) -> list:
+    return [tuple(x) if isinstance(x, list) else x for x in case]
+
+
 def replay(ctx: core.Ctx, data) -> list:  # noqa: ANN001
+    if data.get("family"):
+        viol, _, _, _ = run_family_case(int(data["seed"]), tuple(_untuple(data["case"])))
+        seen = {}
+        for key, what in viol:
+            seen.setdefault(key, core.Violation(key, what))
+        return list(seen.values())
     hist = [[(x if not isinstance(x, dict) else {"only": int(x["only"])}) for x in ev] for ev in data["history"]]
     viol, _ = run_history(int(data["k"]), int(data["seed"]), hist)
     seen = set()
